@@ -221,7 +221,7 @@ func runFaultEnum(args []string) int {
 	thorough := len(args) > 2 && args[2] == "tier=thorough"
 	rep := newReport("fault")
 	var plans []ftPlan
-	puts := [][]string{{"b1", "b4"}, {"b12", "b13"}}
+	puts := [][]string{{"b1", "b4"}, {"b12", "b13"}, {"b6", "b1", "b8"}} // the last: three hash functions => several index buckets
 	if thorough {
 		puts = append(puts, []string{"b6", "b14", "b1"}, []string{"b15"})
 	}
